@@ -33,6 +33,12 @@ type op struct {
 
 type state map[string]map[string]string
 
+// objects that currently carry a deadline are stored with this prefix on their value
+const dl = "\x00deadline\x00"
+
+func hasDeadline(v string) bool { return strings.HasPrefix(v, dl) }
+func plain(v string) string     { return strings.TrimPrefix(v, dl) }
+
 func (s state) clone() state {
 	n := state{}
 	for k, c := range s {
@@ -57,11 +63,15 @@ func sortedKeys(m map[string]string) []string {
 // exec applies a command to s (in place) and returns the canonical RESP reply
 func exec(s state, a []string) string {
 	switch strings.ToUpper(a[0]) {
-	case "SET": // SET k id STRING v
+	case "SET": // SET k id [EX s] STRING v
 		if s[a[1]] == nil {
 			s[a[1]] = map[string]string{}
 		}
-		s[a[1]][a[2]] = a[4]
+		if a[3] == "EX" {
+			s[a[1]][a[2]] = dl + a[6]
+		} else {
+			s[a[1]][a[2]] = a[4]
+		}
 		return "+OK"
 	case "GET":
 		c, ok := s[a[1]]
@@ -72,7 +82,7 @@ func exec(s state, a []string) string {
 		if !ok {
 			return "nil"
 		}
-		return "$" + strconv.Quote(v)
+		return "$" + strconv.Quote(plain(v))
 	case "DEL":
 		c, ok := s[a[1]]
 		if !ok {
@@ -224,14 +234,21 @@ func run(r *hx.Result, cfg hx.Config) {
 					switch {
 					case ci == 0 && x < 12:
 						a = []string{"PDEL", k, "p*"}
+						if lr.Intn(4) == 0 {
+							a[2] = "t*"
+						}
 					case ci == 0 && x < 18:
 						a = []string{"DROP", k}
 					case ci == 1 && x < 12:
 						a = []string{"RENAME", "m", "n"}
 					case ci == 2 && x < 6:
 						a = []string{"FLUSHDB"}
-					case x < 55:
+					case x < 45:
 						a = []string{"SET", k, id, "STRING", fmt.Sprintf("v%d.%d.%d", h, ci, j)}
+					case x < 52:
+						a = []string{"SET", k, fmt.Sprintf("t%d-%d", ci, lr.Intn(8)), "EX", "0.05", "STRING", fmt.Sprintf("v%d.%d.%d", h, ci, j)}
+					case x < 55:
+						a = []string{"SET", k, fmt.Sprintf("t%d-%d", ci, lr.Intn(8)), "STRING", fmt.Sprintf("v%d.%d.%d", h, ci, j)}
 					case x < 65:
 						a = []string{"DEL", k, id}
 					case x < 80:
@@ -240,6 +257,9 @@ func run(r *hx.Result, cfg hx.Config) {
 						a = []string{"SCAN", k, "IDS"}
 					default:
 						a = []string{"KEYS", "*"}
+					}
+					if true {
+						time.Sleep(time.Duration(lr.Intn(6)) * time.Millisecond) // let the 100 ms sweeper interleave
 					}
 					o := &op{client: ci, args: a, idx: -1}
 					o.send = time.Now()
@@ -295,7 +315,14 @@ func run(r *hx.Result, cfg hx.Config) {
 		}
 		var writes []*op
 		bad := false
+		sweeps := 0
 		for i, e := range aof {
+			if e[0] == "del" && len(e) == 3 {
+				// written by the expiry sweeper (clients send upper-case command words)
+				writes = append(writes, &op{client: -1, args: []string{"SWEEPDEL", e[1], e[2]}, idx: i})
+				sweeps++
+				continue
+			}
 			e[0] = strings.ToUpper(e[0])
 			k := strings.Join(e, "\x00")
 			q := pending[k]
@@ -325,17 +352,28 @@ func run(r *hx.Result, cfg hx.Config) {
 		cur := state{}
 		overlap := false
 		for i, w := range writes {
+			if w.client == -1 {
+				// a delete issued by the sweeper is justified only if, at this point of the serial
+				// order, the object exists and carries a deadline
+				v, ok := cur[w.args[1]][w.args[2]]
+				if !ok || !hasDeadline(v) {
+					r.Fail(hx.Failure{Kind: "oracle", Signature: "sweeper-deleted-live-object", What: fmt.Sprintf("log position %d: the expiry sweeper deleted %s/%s, which at that point of the serial order %s", i, w.args[1], w.args[2], map[bool]string{true: "had no deadline (it had been re-SET without EX)", false: "did not exist"}[ok])})
+				}
+				exec(cur, []string{"DEL", w.args[1], w.args[2]})
+				states = append(states, cur.clone())
+				continue
+			}
 			rep := exec(cur, w.args)
 			if rep != w.reply {
 				r.Fail(hx.Failure{Kind: "oracle", Signature: "write-reply-not-sequential", What: fmt.Sprintf("logged write #%d %q replied %s, the sequential model at its log position replies %s", i, w.args, w.reply, rep)})
 			}
 			states = append(states, cur.clone())
-			if i > 0 && writes[i-1].recv.After(w.send) && writes[i-1].client != w.client {
+			if i > 0 && writes[i-1].client != -1 && writes[i-1].recv.After(w.send) && writes[i-1].client != w.client {
 				overlap = true
 			}
 			// real-time order
 			for j := i - 1; j >= 0 && j > i-40; j-- {
-				if w.recv.Before(writes[j].send) {
+				if writes[j].client != -1 && w.recv.Before(writes[j].send) {
 					r.Fail(hx.Failure{Kind: "oracle", Signature: "aof-order-vs-realtime", What: fmt.Sprintf("write %q was acknowledged before %q was sent, but is logged after it", w.args, writes[j].args)})
 				}
 			}
@@ -355,12 +393,12 @@ func run(r *hx.Result, cfg hx.Config) {
 				}
 				lo, hi := 0, len(writes)
 				for i, w := range writes {
-					if w.recv.Before(o.send) && i+1 > lo {
+					if w.client != -1 && w.recv.Before(o.send) && i+1 > lo {
 						lo = i + 1
 					}
 				}
 				for i, w := range writes {
-					if w.send.After(o.recv) {
+					if w.client != -1 && w.send.After(o.recv) {
 						hi = i
 						break
 					}
@@ -387,6 +425,6 @@ func run(r *hx.Result, cfg hx.Config) {
 		r.Count(fmt.Sprintf("history %d: %d clients, %d logged writes, %d multi-object, %d other replies placed", h, nclients, len(writes), multi, checked), overlap && multi > 0)
 		r.Dist(fmt.Sprintf("lock:%v", extra))
 		r.TracesImpl++
-		r.Sample(4, map[string]interface{}{"clients": nclients, "ops": nclients * perClient, "logged_writes": len(writes), "multi_object_writes": multi, "non_logged_replies_placed": checked, "spinlock": h%2 == 1})
+		r.Sample(4, map[string]interface{}{"clients": nclients, "ops": nclients * perClient, "logged_writes": len(writes), "multi_object_writes": multi, "sweeper_deletes": sweeps, "non_logged_replies_placed": checked, "spinlock": h%2 == 1})
 	}
 }
